@@ -508,6 +508,51 @@ Proof.
   - cbn [andb]. cbv iota. now left.
 Qed.
 
+(* ---------- extendLinks: links of an imported file are rebased on the importing field ---------- *)
+
+Lemma extend_pop_not_us imp rest : not_us_head rest = true -> extend_pop imp rest = (imp, rest).
+Proof. destruct rest as [|s rest]; cbn; [reflexivity|]. intro H. apply negb_true_iff in H. now rewrite H. Qed.
+
+Lemma extend_pop_climb : forall j I rest, (j <= length I)%nat -> not_us_head rest = true ->
+  extend_pop (scope_of I) (repeat us_seg j ++ rest) = (scope_of (firstn (length I - j) I), rest).
+Proof.
+  induction j as [|j IH]; intros I rest Hj Hr.
+  - cbn [repeat app]. rewrite Nat.sub_0_r, firstn_all. now apply extend_pop_not_us.
+  - destruct I as [|p I] using rev_ind; [cbn in Hj; lia|]. clear IHI.
+    destruct p as [[kd n] q]. rewrite app_length in Hj |- *. cbn [length] in Hj |- *.
+    cbn [repeat app extend_pop]. change (is_us us_seg) with true. cbv iota.
+    rewrite scope_of_length, app_length. cbn [length].
+    replace (Nat.ltb (S (2 * (length I + 1))) 2) with false by (symmetry; apply Nat.ltb_ge; lia).
+    rewrite scope_of_snoc, removelast2_snoc. rewrite IH by (auto; lia).
+    replace (length I + 1 - S j)%nat with (length I - j)%nat by lia.
+    rewrite firstn_app. replace (length I - j - length I)%nat with 0%nat by lia.
+    cbn [firstn]. now rewrite app_nil_r.
+Qed.
+
+(* A link stored in an imported file as  root, j left-over underscores, rest  becomes, once the file
+   is imported by the field at board path I:  I up j levels, then rest.  In particular (j = 0) the
+   file's absolute path root.Q becomes root.I.Q. *)
+Lemma imported_link_rebased I r j rest :
+  (j <= length I)%nat -> not_us_head rest = true ->
+  extend_link (scope_of I) (r :: repeat us_seg j ++ rest)
+    = Some (scope_of (firstn (length I - j) I) ++ rest).
+Proof.
+  intros Hj Hr. unfold extend_link. now rewrite extend_pop_climb.
+Qed.
+
+Lemma imported_absolute_rebased I r Q :
+  kinds_ok Q = true ->
+  extend_link (scope_of I) (r :: scope_tail Q) = Some (scope_of (I ++ Q)).
+Proof.
+  intro HkQ.
+  assert (Hnu : not_us_head (scope_tail Q) = true).
+  { destruct Q as [|[[kd n] q] Q]; [reflexivity|]. cbn. cbn in HkQ. apply andb_prop in HkQ as [H _].
+    unfold is_us. cbn [s_val useg]. rewrite andb_true_r. apply negb_true_iff.
+    destruct (str_eqb kd s_us) eqn:E; [|reflexivity]. apply str_eqb_eq in E. subst kd. discriminate. }
+  pose proof (imported_link_rebased I r 0 (scope_tail Q) ltac:(lia) Hnu) as H.
+  cbn [repeat app] in H. rewrite H, Nat.sub_0_r, firstn_all. unfold scope_of. now rewrite scope_tail_app.
+Qed.
+
 (* ---------- link value = resolveLinks key, for names without dots ---------- *)
 
 Definition nodot (s : str) : bool := negb (existsb (N.eqb 46) s).
